@@ -46,6 +46,9 @@ pub struct LiqPlan {
 	pub restarts: Vec<(u32, usize)>,
 	/// (round, node, sat per kw): the node's fee estimator moves
 	pub fees: Vec<(u32, usize, u32)>,
+	/// (round, depth): a shallow reorganisation (depth < 6, T4); removed transactions return to
+	/// the mempool and are mined again
+	pub reorgs: Vec<(u32, u32)>,
 }
 
 impl World {
@@ -255,6 +258,17 @@ impl World {
 				let normal = self.nodes[*n].fee.normal.load(std::sync::atomic::Ordering::Relaxed);
 				self.nodes[*n].fee.max.store((*rate).max(normal), std::sync::atomic::Ordering::Relaxed);
 				self.out.bump("fault:fee_estimator_moved_during_onchain_resolution");
+			}
+		}
+		for (r, depth) in plan.reorgs.iter() {
+			if *r == round {
+				let d = (*depth).clamp(1, 5);
+				if self.do_reorg(d, true, d + 1) {
+					self.out.bump("fault:reorg_during_onchain_resolution");
+					for n in 0..self.nodes.len() {
+						self.do_sync(n, 255);
+					}
+				}
 			}
 		}
 		let held = plan.holds.iter().any(|(from, len)| round >= *from && round < from + len);
